@@ -114,7 +114,32 @@ pub fn run(tier: Tier) -> i32 {
         }
     });
     stats = stats.merge(s);
-    if let Err(e) = require_nonzero(&stats, &["spellings", "spans_checked", "errors_checked"]) {
+    // error clause (c): the same damaged texts as bytes in a declared single-byte encoding (where they contain
+    // characters outside ASCII, so that the decoded text is longer than the byte source): the source is the byte slice
+    let byte_cases: Vec<Vec<u8>> = damaged
+        .iter()
+        .filter(|t| !t.is_ascii() && latin1_safe(t) && !t.starts_with("<?xml"))
+        .map(|t| {
+            let mut b = b"<?xml version=\"1.0\" encoding=\"ISO-8859-1\"?>".to_vec();
+            b.extend(t.chars().map(|c| c as u32 as u8));
+            b
+        })
+        .collect();
+    let s = par_slice(&ctx, &byte_cases, |b, st| {
+        let mut xot = Xot::new();
+        let r = catch(|| xot.parse_bytes(b).map(|_| ()));
+        st.evals += 1;
+        if let Ok(Err(e)) = r {
+            st.bump("byte_errors_checked");
+            let sp = e.span();
+            st.outcome(&("bytes", crate::props::c01::err_class(&format!("{:?}", e)), sp.start, sp.end));
+            if !(sp.start <= sp.end && sp.end <= b.len()) {
+                st.fail(&json!({"bytes": b}), Fail::new("error-span-out-of-bounds|parse_bytes|offset-into-decoded-text", format!("{:?} reports span {}..{} for a source of {} bytes", e, sp.start, sp.end, b.len())));
+            }
+        }
+    });
+    stats = stats.merge(s);
+    if let Err(e) = require_nonzero(&stats, &["spellings", "spans_checked", "errors_checked", "byte_errors_checked"]) {
         eprintln!("MACHINERY: {}", e);
         return 2;
     }
@@ -123,7 +148,7 @@ pub fn run(tier: Tier) -> i32 {
         "evaluations": stats.evals,
         "distinct_nontrivial": total,
         "samples": samples,
-        "rule": format!("span clause: every abstract document of C02 x every spelling with <= 2 deviations x {{parse_with_span_info, parse_fragment_with_span_info}}; every span the renderer recorded (element start / end, attribute name / value, text run, comment, PI target / content) must exist and equal the recorded byte range; error clause: every rejected string of length <= {} over an 18-symbol markup alphabet (parse and parse_fragment) and every single-character damage / truncation of the default spellings: ParseError::span() lies inside the source; distinct = distinct (document, spelling) pairs plus distinct (error variant, reported span) triples", l),
+        "rule": format!("span clause: every abstract document of C02 x every spelling with <= 2 deviations x {{parse_with_span_info, parse_fragment_with_span_info}}; every span the renderer recorded (element start / end, attribute name / value, text run, comment, PI target / content) must exist and equal the recorded byte range; error clause: every rejected string of length <= {} over an 18-symbol markup alphabet (parse and parse_fragment) and every single-character damage / truncation of the default spellings: ParseError::span() lies inside the source; the damaged texts with characters outside ASCII also as ISO-8859-1 bytes through parse_bytes (the source is the byte slice); distinct = distinct (document, spelling) pairs plus distinct (error variant, reported span) triples", l),
     });
     ctx.finish(stats, cov, vec!["the renderer's offset table is the oracle".into()])
 }
